@@ -19,7 +19,9 @@ RULE = (
     "p.dereference() == reference decode of the target type at that absolute offset (char* => bytes up to NUL), leaves "
     "tell() unchanged and is stable on repetition; null / stream-less pointers raise NullPointerDereference; p + n and "
     "p - n are pointers of the same type on the same stream with the arithmetic value (and dereference accordingly); "
-    "past-the-end targets raise EOFError; dumps() reproduces the address bytes. Non-trivial = non-null address, "
+    "past-the-end targets raise EOFError; dumps() reproduces the address bytes. Shapes stage: the header behind a consumed "
+    "prefix, pointers inside nested structures, struct arrays, typedefs, flags, chained nodes, far addresses, arrays that "
+    "run to the end of the stream (of pointers, and of structures holding one), targets sized by a sibling member. Non-trivial = non-null address, "
     "multi-byte target, fields after the pointer; distinct by (configuration, image)."
 )
 ASSUMPTIONS = [
@@ -500,6 +502,39 @@ def _run_shapes(case, ctx):
         if isinstance(rd, Err) or rd != list(img2[ad : ad + inner_n]):
             raise Violation("dereference-wrong-target", f"{what}: {label} points to 'uint8 buf_t[n]' with n = {inner_n} in the structure holding the pointer (the enclosing structure has n = {inner_n + 4}): dereference gave {rd!r}, the {inner_n} bytes at {ad} are {list(img2[ad:ad + inner_n])}")
     ctx.count("shapes:context-dependent-target")
+    # ---- pointers that are elements of an array running to the end of the stream (directly, or inside the structures
+    # that are its elements): the targets lie in front of the header, the addresses are positions in the stream given
+    cs3 = m.cstruct(endian=case["endian"], pointer=case["ptr"])
+    r3_ = lib(cs3.load, "struct In { uint8 z; uint16 *q; }; struct TailP { uint8 h; uint16 *ps[EOF]; }; struct TailS { uint8 h; In items[EOF]; };", compiled=case["compiled"])
+    if isinstance(r3_, Err):
+        raise Violation("definition-rejected", f"to-end-of-stream arrays: {r3_}", r3_.where)
+    lead = 4 + 2 * (case["n"] + 1) + pad  # [0, lead): the targets (uint16 values at 2, 4, ...), then the header
+    front = bytes([0xA0, 0xA1]) + b"".join((0x1001 + 0x101 * i).to_bytes(2, bo) for i in range(case["n"] + 2)) + bytes(range(0x60, 0x60 + pad))
+    front = front[:lead].ljust(lead, b"\x5a")
+    addrs = [2 + 2 * i for i in range(case["n"] + 1)]
+    for tname, body3, getp in (("TailP", b"".join(P(a) for a in addrs), lambda o, i: o.ps[i]), ("TailS", b"".join(bytes([0x31 + i]) + P(a) for i, a in enumerate(addrs)), lambda o, i: o.items[i].q)):
+        img3 = front + b"\x99" + body3
+        st3 = io.BytesIO(img3)
+        st3.seek(lead)
+        o3 = lib(getattr(cs3, tname), st3)
+        if isinstance(o3, Err):
+            raise Violation("header-parse-raised", f"{what} ({tname}, header at {lead}): {o3}", o3.where)
+        end3 = st3.tell()
+        if end3 != len(img3):
+            raise Violation("pointer-width", f"{what} ({tname}): an array to the end of a {len(img3)}-byte stream left it at {end3}")
+        for i, a in enumerate(addrs):
+            pt3 = lib(getp, o3, i)
+            if isinstance(pt3, Err) or int(pt3) != a:
+                raise Violation("pointer-value", f"{what} ({tname}): element {i} is {pt3!r}, stored address {a}")
+            rd = lib(pt3.dereference)
+            expect3 = int.from_bytes(img3[a : a + 2], bo)
+            if isinstance(rd, Err):
+                raise Violation("dereference-raised", f"{what} ({tname}, header at {lead}): element {i} -> {a}: {rd}", rd.where)
+            if rd != expect3:
+                raise Violation("dereference-wrong-target", f"{what} ({tname}, header at {lead}): element {i} points to {a}; dereference gave {rd!r}, the bytes at {a} of the stream decode to {expect3}")
+            if st3.tell() != end3:
+                raise Violation("dereference-moved-stream", f"{what} ({tname}): tell() {end3} -> {st3.tell()}")
+    ctx.count("shapes:pointers-in-array-to-end-of-stream")
     ctx.count(f"shapes:{case['ptr']}:{case['endian']}:{'compiled' if case['compiled'] else 'interpreted'}")
     ctx.count(f"shapes:pad:{'zero' if pad == 0 else 'positive'}")
     ctx.count(f"shapes:strlen:{case['strlen']}")
